@@ -52,6 +52,23 @@ structure After (f f' : Frame) (pc' : Nat) (v : Val) : Prop where
   val : f'.stack[f.top]! = v
   below : ∀ i, i < f.top → f'.stack[i]! = f.stack[i]!
   size : f'.stack.size = f.stack.size
+  blocks : f'.blocks = f.blocks
+  fblocks : f'.fblocks = f.fblocks
+
+set_option hygiene false in
+/-- the open statement blocks are untouched by expression code -/
+macro "blk" : tactic => `(tactic| first
+  | rfl
+  | exact haft1.blocks
+  | exact haft2.blocks.trans haft1.blocks
+  | exact haft2.blocks)
+
+set_option hygiene false in
+macro "fblk" : tactic => `(tactic| first
+  | rfl
+  | exact haft1.fblocks
+  | exact haft2.fblocks.trans haft1.fblocks
+  | exact haft2.fblocks)
 
 
 theorem set_get_same (a : Array Val) (i : Nat) (v : Val) (h : i < a.size) : (a.set! i v)[i]! = v := by
@@ -96,28 +113,28 @@ theorem run_compile (z : Bool) (env : Nat) (e : F) : ∀ (g : G) (f : Frame), Co
     obtain ⟨hpc, hi⟩ := hc.head
     simp only [evalF, compile, List.length_singleton]
     refine ⟨1, addOps g f.ctx 1, _, fun fuel => step_pushInt fuel g f i hpc hi hr.nolimit (by omega) hr.size, ?_, rfl, rfl, by ctx_tac⟩
-    exact ⟨rfl, rfl, rfl, rfl, set_get_same _ _ _ (by rw [hr.size]; omega), fun j hj => set_get_ne _ _ _ _ (by omega), set_size _ _ _⟩
+    exact ⟨rfl, rfl, rfl, rfl, set_get_same _ _ _ (by rw [hr.size]; omega), fun j hj => set_get_ne _ _ _ _ (by omega), set_size _ _ _, by blk, by fblk⟩
   | flt x =>
     intro g f hc hr henv hroom
     simp only [compile, depth] at hc hroom
     obtain ⟨hpc, hi⟩ := hc.head
     simp only [evalF, compile, List.length_singleton]
     refine ⟨1, addOps g f.ctx 1, _, fun fuel => step_pushFlt fuel g f x hpc hi hr.nolimit (by omega) hr.size, ?_, rfl, rfl, by ctx_tac⟩
-    exact ⟨rfl, rfl, rfl, rfl, set_get_same _ _ _ (by rw [hr.size]; omega), fun j hj => set_get_ne _ _ _ _ (by omega), set_size _ _ _⟩
+    exact ⟨rfl, rfl, rfl, rfl, set_get_same _ _ _ (by rw [hr.size]; omega), fun j hj => set_get_ne _ _ _ _ (by omega), set_size _ _ _, by blk, by fblk⟩
   | str x =>
     intro g f hc hr henv hroom
     simp only [compile, depth] at hc hroom
     obtain ⟨hpc, hi⟩ := hc.head
     simp only [evalF, compile, List.length_singleton]
     refine ⟨1, addOps g f.ctx 1, _, fun fuel => step_pushStr fuel g f x hpc hi hr.nolimit (by omega) hr.size, ?_, rfl, rfl, by ctx_tac⟩
-    exact ⟨rfl, rfl, rfl, rfl, set_get_same _ _ _ (by rw [hr.size]; omega), fun j hj => set_get_ne _ _ _ _ (by omega), set_size _ _ _⟩
+    exact ⟨rfl, rfl, rfl, rfl, set_get_same _ _ _ (by rw [hr.size]; omega), fun j hj => set_get_ne _ _ _ _ (by omega), set_size _ _ _, by blk, by fblk⟩
   | nul =>
     intro g f hc hr henv hroom
     simp only [compile, depth] at hc hroom
     obtain ⟨hpc, hi⟩ := hc.head
     simp only [evalF, compile, List.length_singleton]
     refine ⟨1, addOps g f.ctx 1, _, fun fuel => step_pushNull fuel g f hpc hi hr.nolimit (by omega) hr.size, ?_, rfl, rfl, by ctx_tac⟩
-    exact ⟨rfl, rfl, rfl, rfl, set_get_same _ _ _ (by rw [hr.size]; omega), fun j hj => set_get_ne _ _ _ _ (by omega), set_size _ _ _⟩
+    exact ⟨rfl, rfl, rfl, rfl, set_get_same _ _ _ (by rw [hr.size]; omega), fun j hj => set_get_ne _ _ _ _ (by omega), set_size _ _ _, by blk, by fblk⟩
   | bin op a b iha ihb =>
     intro g f hc hr henv hroom
     simp only [compile, depth] at hc hroom
@@ -167,7 +184,7 @@ theorem run_compile (z : Bool) (env : Nat) (e : F) : ∀ (g : G) (f : Frame), Co
                 have hstep := fun fuel => step_bin_ok fuel g2 f2 op h3 v hpcI' hI' hl2 (by omega) hs2 (by omega)
                   (by rw [hva, hvb, hheap2, hz2]; exact hbo)
                 refine ⟨1 + (k2 + k1), _, _, (hrun1.trans hrun2).trans (fun fuel => hstep fuel), ?_, ?_, rfl, by ctx_tac⟩
-                · refine ⟨hcode2, by simp only; rw [haft2.ctx, haft1.ctx], ?_, by simp only; omega, ?_, ?_, ?_⟩
+                · refine ⟨hcode2, by simp only; rw [haft2.ctx, haft1.ctx], ?_, by simp only; omega, ?_, ?_, ?_, by blk, by fblk⟩
                   · simp only [hpc2, compile, List.length_append, List.length_singleton]; omega
                   · have : f2.top - 2 = f.top := by omega
                     simp only [this]
@@ -225,7 +242,7 @@ theorem run_compile (z : Bool) (env : Nat) (e : F) : ∀ (g : G) (f : Frame), Co
           have hstep := fun fuel => step_neg_ok fuel g1 f1 r hpcI' hI' hl1 (by rw [haft1.top]; omega) hs1 (by rw [haft1.top]; omega) (by rw [hva]; exact hn)
           refine ⟨1 + k1, _, _, hrun1.trans (fun fuel => hstep fuel), ?_, by simp only [addOps_cfg]; exact hcfg1, by simp only [addOps_heap]; exact hheap1, by ctx_tac⟩
           have ht : f1.top - 1 = f.top := by rw [haft1.top]; omega
-          refine ⟨haft1.code, haft1.ctx, ?_, by simp only; rw [haft1.top], ?_, ?_, by simp only; rw [set_size, haft1.size]⟩
+          refine ⟨haft1.code, haft1.ctx, ?_, by simp only; rw [haft1.top], ?_, ?_, by simp only; rw [set_size, haft1.size], by blk, by fblk⟩
           · simp only [haft1.pc, compile, List.length_append, List.length_singleton]; omega
           · simp only [ht]; exact set_get_same _ _ _ (by rw [hs1]; omega)
           · intro j hj; simp only [ht]; rw [set_get_ne _ _ _ _ (by omega), haft1.below j hj]
@@ -266,7 +283,7 @@ theorem run_compile (z : Bool) (env : Nat) (e : F) : ∀ (g : G) (f : Frame), Co
           have hstep := fun fuel => step_pos_ok fuel g1 f1 r hpcI' hI' hl1 (by rw [haft1.top]; omega) hs1 (by rw [haft1.top]; omega) (by rw [hva]; exact hn)
           refine ⟨1 + k1, _, _, hrun1.trans (fun fuel => hstep fuel), ?_, by simp only [addOps_cfg]; exact hcfg1, by simp only [addOps_heap]; exact hheap1, by ctx_tac⟩
           have ht : f1.top - 1 = f.top := by rw [haft1.top]; omega
-          refine ⟨haft1.code, haft1.ctx, ?_, by simp only; rw [haft1.top], ?_, ?_, by simp only; rw [set_size, haft1.size]⟩
+          refine ⟨haft1.code, haft1.ctx, ?_, by simp only; rw [haft1.top], ?_, ?_, by simp only; rw [set_size, haft1.size], by blk, by fblk⟩
           · simp only [haft1.pc, compile, List.length_append, List.length_singleton]; omega
           · simp only [ht]; exact set_get_same _ _ _ (by rw [hs1]; omega)
           · intro j hj; simp only [ht]; rw [set_get_ne _ _ _ _ (by omega), haft1.below j hj]
@@ -338,7 +355,7 @@ theorem run_compile (z : Bool) (env : Nat) (e : F) : ∀ (g : G) (f : Frame), Co
               have hstepM := fun fuel => step_jmp fuel g2 f2 (compile b).length hpcM' hM' hl2 (by rw [haft2.top, hAt]; omega)
               refine ⟨1 + (k2 + (1 + k1)), _, _, ((hrun1.trans hrunJ).trans hrun2).trans (fun fuel => hstepM fuel), ?_,
                 by simp only [addOps_cfg]; rw [hcfg2]; simp only [addOps_cfg]; exact hcfg1, by simp only [addOps_heap]; exact hheap2, by ctx_tac⟩
-              refine ⟨hcode2, by simp only; rw [haft2.ctx]; exact haft1.ctx, ?_, by simp only; rw [haft2.top, hAt], ?_, ?_, by simp only; rw [haft2.size]; exact haft1.size⟩
+              refine ⟨hcode2, by simp only; rw [haft2.ctx]; exact haft1.ctx, ?_, by simp only; rw [haft2.top, hAt], ?_, ?_, by simp only; rw [haft2.size]; exact haft1.size, by blk, by fblk⟩
               · simp only [hpc2, compile, List.length_append, List.length_singleton]; omega
               · simp only; rw [← hAt]; exact haft2.val
               · intro j hj; simp only; rw [haft2.below j (by rw [hAt]; exact hj)]; exact haft1.below j hj
@@ -367,7 +384,7 @@ theorem run_compile (z : Bool) (env : Nat) (e : F) : ∀ (g : G) (f : Frame), Co
               obtain ⟨k2, g2, f2, hrun2, haft2, hcfg2, hheap2, hctx2⟩ := hbv
               simp only
               refine ⟨k2 + (1 + k1), g2, f2, (hrun1.trans hrunJ).trans hrun2, ?_, by rw [hcfg2]; simp only [addOps_cfg]; exact hcfg1, hheap2, by ctx_tac⟩
-              refine ⟨by rw [haft2.code]; exact haft1.code, by rw [haft2.ctx]; exact haft1.ctx, ?_, by rw [haft2.top, hBt], ?_, ?_, by rw [haft2.size]; exact haft1.size⟩
+              refine ⟨by rw [haft2.code]; exact haft1.code, by rw [haft2.ctx]; exact haft1.ctx, ?_, by rw [haft2.top, hBt], ?_, ?_, by rw [haft2.size]; exact haft1.size, by blk, by fblk⟩
               · rw [haft2.pc, hpcB]; simp only [compile, List.length_append, List.length_singleton]; omega
               · rw [← hBt]; exact haft2.val
               · intro j hj; rw [haft2.below j (by rw [hBt]; exact hj)]; exact haft1.below j hj
@@ -421,7 +438,7 @@ theorem run_compile (z : Bool) (env : Nat) (e : F) : ∀ (g : G) (f : Frame), Co
               { f1 with pc := f1.pc + 1 + ((compile b).length + 2), stack := f1.stack.set! (f1.top - 1) (f1.stack[f1.top - 1]!), top := f1.top, lastPop := .slot (f1.top - 1) } := by
             intro fuel; rw [hstepJ fuel, hva, hcond]; simp only [if_true]
           refine ⟨1 + k1, _, _, hrun1.trans hrunJ, ?_, by simp only [addOps_cfg]; exact hcfg1, by simp only [addOps_heap], by ctx_tac⟩
-          refine ⟨haft1.code, haft1.ctx, ?_, by simp only; rw [haft1.top], ?_, ?_, by simp only; rw [set_size]; exact haft1.size⟩
+          refine ⟨haft1.code, haft1.ctx, ?_, by simp only; rw [haft1.top], ?_, ?_, by simp only; rw [set_size]; exact haft1.size, by blk, by fblk⟩
           · simp only [haft1.pc, compile, List.length_append, List.length_singleton]; omega
           · simp only [ht1]; rw [set_get_same _ _ _ (by rw [hs1]; omega)]; exact haft1.val
           · intro j hj; simp only [ht1]; rw [set_get_ne _ _ _ _ (by omega)]; exact haft1.below j hj
@@ -462,7 +479,7 @@ theorem run_compile (z : Bool) (env : Nat) (e : F) : ∀ (g : G) (f : Frame), Co
                   intro fuel; rw [hstepK fuel, hvb, hcond2]; simp only [if_true]
                 refine ⟨1 + (k2 + (1 + k1)), _, _, ((hrun1.trans hrunJ).trans hrun2).trans hrunK, ?_,
                   by simp only [addOps_cfg]; rw [hcfg2]; simp only [addOps_cfg]; exact hcfg1, by simp only [addOps_heap]; exact hheap2, by ctx_tac⟩
-                refine ⟨hcode2, by simp only; rw [haft2.ctx]; exact haft1.ctx, ?_, by simp only; rw [haft2.top, hBt], ?_, ?_, by simp only; rw [set_size, hs2]; exact hr.size.symm⟩
+                refine ⟨hcode2, by simp only; rw [haft2.ctx]; exact haft1.ctx, ?_, by simp only; rw [haft2.top, hBt], ?_, ?_, by simp only; rw [set_size, hs2]; exact hr.size.symm, by blk, by fblk⟩
                 · simp only [hpc2, compile, List.length_append, List.length_singleton]; omega
                 · simp only [ht2]; rw [set_get_same _ _ _ (by rw [hs2]; omega), ← hBt]; exact haft2.val
                 · intro j hj; simp only [ht2]; rw [set_get_ne _ _ _ _ (by omega)]; exact hbelow j hj
@@ -478,7 +495,7 @@ theorem run_compile (z : Bool) (env : Nat) (e : F) : ∀ (g : G) (f : Frame), Co
                 refine ⟨1 + (1 + (k2 + (1 + k1))), _, _, (((hrun1.trans hrunJ).trans hrun2).trans hrunK).trans (fun fuel => hstepP fuel), ?_,
                   by simp only [addOps_cfg]; rw [hcfg2]; simp only [addOps_cfg]; exact hcfg1, by simp only [addOps_heap]; exact hheap2, by ctx_tac⟩
                 have hPt : fP.top = f.top := ht2
-                refine ⟨hcode2, by simp only [fP]; rw [haft2.ctx]; exact haft1.ctx, ?_, by simp only [hPt], ?_, ?_, by simp only [fP]; rw [set_size, hs2]; exact hr.size.symm⟩
+                refine ⟨hcode2, by simp only [fP]; rw [haft2.ctx]; exact haft1.ctx, ?_, by simp only [hPt], ?_, ?_, by simp only [fP]; rw [set_size, hs2]; exact hr.size.symm, by blk, by fblk⟩
                 · simp only [fP, hpc2, compile, List.length_append, List.length_singleton]; omega
                 · simp only [hPt]
                   rw [set_get_same _ _ _ (by simp only [fP]; rw [hs2]; omega)]
@@ -543,7 +560,7 @@ theorem run_compile (z : Bool) (env : Nat) (e : F) : ∀ (g : G) (f : Frame), Co
             refine ⟨1 + (k2 + k1), _, _, (hrun1.trans hrun2).trans (fun fuel => hstep fuel), ?_, by simp only [addOps_cfg]; rw [hcfg2, hcfg1],
               by simp only [addOps_heap]; exact hheap2, by ctx_tac⟩
             have ht : f2.top - 2 = f.top := by omega
-            refine ⟨hcode2, by simp only; rw [haft2.ctx, haft1.ctx], ?_, by simp only; omega, ?_, ?_, by simp only; rw [set_size, haft2.size, haft1.size]⟩
+            refine ⟨hcode2, by simp only; rw [haft2.ctx, haft1.ctx], ?_, by simp only; omega, ?_, ?_, by simp only; rw [set_size, haft2.size, haft1.size], by blk, by fblk⟩
             · simp only [hpc2, compile, List.length_append, List.length_singleton]; omega
             · simp only [ht]
               rw [set_get_same _ _ _ (by rw [hs2]; omega), ← ht, hva, hvb, hheap2]
@@ -580,7 +597,7 @@ theorem run_compile (z : Bool) (env : Nat) (e : F) : ∀ (g : G) (f : Frame), Co
         simp only [if_true]
         have hds := fun fuel => step_var fuel g f n b e v hpc1 hi0 (by simpa using h1) hr.nolimit (by omega) hr.size (by rw [henv]; exact hv) hp
         refine ⟨2, _, _, hds, ?_, rfl, rfl, by ctx_tac⟩
-        exact ⟨rfl, rfl, rfl, rfl, set_get_same _ _ _ (by rw [hr.size]; omega), fun j hj => set_get_ne _ _ _ _ (by omega), set_size _ _ _⟩
+        exact ⟨rfl, rfl, rfl, rfl, set_get_same _ _ _ (by rw [hr.size]; omega), fun j hj => set_get_ne _ _ _ _ (by omega), set_size _ _ _, by blk, by fblk⟩
   | asg n a iha =>
     intro g f hc hr henv hroom
     simp only [compile, depth] at hc hroom
@@ -606,7 +623,7 @@ theorem run_compile (z : Bool) (env : Nat) (e : F) : ∀ (g : G) (f : Frame), Co
         simp only
         refine ⟨1 + k1, _, _, hrun1.trans (fun fuel => hstep fuel), ?_, ?_, ?_, ?_⟩
         · exact ⟨haft1.code, haft1.ctx, by simp only [haft1.pc, compile, List.length_append, List.length_singleton]; omega,
-            haft1.top, haft1.val, haft1.below, haft1.size⟩
+            haft1.top, haft1.val, haft1.below, haft1.size, haft1.blocks, haft1.fblocks⟩
         · simp only [storeName, attrsStore, addOps_cfg]; exact hcfg1
         · simp only [storeName, attrsStore, addOps_heap, ctxAttrs_addOps, hva, hheap1]
           rw [hctx1, haft1.ctx, henv]
